@@ -51,6 +51,16 @@ func Marshal(inputABI abi.ABI, typeName string, jsonData string) ([]byte, error)
 		}
 	}
 	if !found {
+		// not an action: the type may be registered as an output of the VM
+		for _, output := range inputABI.Outputs {
+			if output.Name == typeName {
+				typeID = output.ID
+				found = true
+				break
+			}
+		}
+	}
+	if !found {
 		return nil, fmt.Errorf("action %s not found in ABI", typeName)
 	}
 
